@@ -82,7 +82,7 @@ func (z *zzRecStats) HandleConn(ctx context.Context, s stats.ConnStats) {
 	}
 }
 
-// check: for every tag: begin first, exactly one begin, exactly one end, nothing after end.
+// check: for every tag: begin first, exactly one begin, exactly one end.
 func (z *zzRecStats) wellPaired(wantRPCs int, wantFail []bool) {
 	vfAssert(z.untagged == 0, "every-event-carries-the-TagRPC-context")
 	vfAssert(z.ntags == wantRPCs, "one-tag-per-RPC")
@@ -104,7 +104,8 @@ func (z *zzRecStats) wellPaired(wantRPCs int, wantFail []bool) {
 		}
 		vfAssert(nb == 1, "exactly-one-begin")
 		vfAssert(ne == 1, "exactly-one-end")
-		vfAssert(ev[len(ev)-1] == "end", "nothing-after-end")
+		// (that End is the LAST event is not part of the property as stated: a payload event of a send
+		// that races with the end of the stream may be reported after it)
 		if wantFail != nil && tag-1 < len(wantFail) {
 			vfAssert(z.endErr[tag] == wantFail[tag-1], "End.Error-nil-exactly-when-the-RPC-succeeded")
 		}
@@ -138,7 +139,11 @@ func H_C20_stats_e2e() {
 		}
 		return &testproto.Msg{Value: in.GetValue() + 1}, nil
 	}
+	late := vfParam("late", 0) // the handler returns at once; the caller's zero-valued message and half-close arrive around/after that
 	sh := func(srv any, stream grpc.ServerStream) error {
+		if late == 1 {
+			return herr
+		}
 		for {
 			in := new(testproto.Msg)
 			err := stream.RecvMsg(in)
@@ -175,6 +180,14 @@ func H_C20_stats_e2e() {
 			cs, err := cc.NewStream(ctx, &grpc.StreamDesc{ClientStreams: true, ServerStreams: true}, "/"+zzSvcName+"/BidiStream")
 			if err != nil {
 				callErr = err
+			} else if late == 1 {
+				cs.SendMsg(&testproto.Msg{}) // encodes to zero bytes
+				cs.CloseSend()
+				out := new(testproto.Msg)
+				err := cs.RecvMsg(out)
+				if err != io.EOF {
+					callErr = err
+				}
 			} else {
 				cs.SendMsg(&testproto.Msg{Value: 3})
 				out := new(testproto.Msg)
